@@ -1053,6 +1053,68 @@ func helperCompare(cond ssa.Value) (ssa.Value, token.Token, ssa.Value, bool) {
 	return nil, 0, nil, false
 }
 
+// nilErrImplies: cond (with the given truth) says that `check(…, v, …)`
+// returned a nil error, check being a repository function whose only result is
+// an error (a validation hoisted into a helper): v then satisfies what the
+// guards of every return of check that can carry nil say about the parameter.
+func nilErrImplies(cond ssa.Value, truth bool, v ssa.Value, ptrBits int) (ival, bool) {
+	bo, ok := cond.(*ssa.BinOp)
+	if !ok || (bo.Op != token.EQL && bo.Op != token.NEQ) || (bo.Op == token.EQL) != truth {
+		return ival{}, false
+	}
+	var cl *ssa.Call
+	for _, pr := range [][2]ssa.Value{{bo.X, bo.Y}, {bo.Y, bo.X}} {
+		if k, isK := pr[1].(*ssa.Const); isK && k.IsNil() {
+			cl, _ = pr[0].(*ssa.Call)
+		}
+	}
+	if cl == nil {
+		return ival{}, false
+	}
+	f := cl.Call.StaticCallee()
+	if f == nil || len(f.Blocks) == 0 || !strings.HasPrefix(funcPkgPath(f), modPath) || f.Signature.Results().Len() != 1 || !isErrorType(f.Signature.Results().At(0).Type()) {
+		return ival{}, false
+	}
+	off := 0
+	if f.Signature.Recv() != nil {
+		off = 0 // receiver is Params[0] and Args[0] for static method calls
+	}
+	for i, a := range cl.Call.Args {
+		if !exprEq(a, v) || i+off >= len(f.Params) {
+			continue
+		}
+		p := f.Params[i+off]
+		// the parameter must not be reassigned (it is an SSA value: only an address-taken parameter is a cell)
+		j := ival{lo: posInf, hi: negInf, notZero: true}
+		n := 0
+		for _, b := range f.Blocks {
+			ret, ok := b.Instrs[len(b.Instrs)-1].(*ssa.Return)
+			if !ok || len(ret.Results) != 1 {
+				continue
+			}
+			if definitelyNonNilErr(ret.Results[0], 0) {
+				continue
+			}
+			n++
+			gr := guardRange(p, b, ptrBits)
+			if gr.lo < j.lo {
+				j.lo = gr.lo
+			}
+			if gr.hi > j.hi {
+				j.hi = gr.hi
+			}
+			if !gr.notZero {
+				j.notZero = false
+			}
+		}
+		if n == 0 || j.lo > j.hi {
+			return ival{}, false
+		}
+		return j, true
+	}
+	return ival{}, false
+}
+
 func applyCond(r *ival, v ssa.Value, cond ssa.Value, truth bool, ptrBits int) {
 	if x, op, k, ok := helperCompare(cond); ok && exprEq(x, v) {
 		if kk, isInt := constInt64(k); isInt {
@@ -1076,6 +1138,10 @@ func applyCond(r *ival, v ssa.Value, cond ssa.Value, truth bool, ptrBits int) {
 				}
 			}
 		}
+		return
+	}
+	if ir, ok := nilErrImplies(cond, truth, v, ptrBits); ok {
+		r.meet(ir)
 		return
 	}
 	switch c := cond.(type) {
@@ -1539,6 +1605,28 @@ func globalNeverNilErr(g *ssa.Global) bool {
 	return false
 }
 
+// nonNilErrAtReturn: the error returned by ret (result ei) is non-nil on every
+// execution: by construction, or because the return is dominated by the
+// branch on which that same value was tested non-nil.
+func nonNilErrAtReturn(ret *ssa.Return, ei int) bool {
+	e := ret.Results[ei]
+	if definitelyNonNilErr(e, 0) {
+		return true
+	}
+	for _, g := range guardEdges(ret.Block()) {
+		bo, ok := g.If.Cond.(*ssa.BinOp)
+		if !ok || (bo.Op != token.EQL && bo.Op != token.NEQ) {
+			continue
+		}
+		for _, pr := range [][2]ssa.Value{{bo.X, bo.Y}, {bo.Y, bo.X}} {
+			if k, isK := pr[1].(*ssa.Const); isK && k.IsNil() && pr[0] == e && (bo.Op == token.NEQ) == g.Truth {
+				return true
+			}
+		}
+	}
+	return false
+}
+
 // returnRangeOK: like returnRange, over the returns whose error result (index
 // ei) is not a definitely non-nil error.
 func returnRangeOK(fn *ssa.Function, idx, ei, ptrBits, depth int) (ival, bool) {
@@ -1554,7 +1642,7 @@ func returnRangeOK(fn *ssa.Function, idx, ei, ptrBits, depth int) (ival, bool) {
 		if !ok || idx >= len(ret.Results) || ei >= len(ret.Results) {
 			continue
 		}
-		if definitelyNonNilErr(ret.Results[ei], 0) {
+		if nonNilErrAtReturn(ret, ei) {
 			continue
 		}
 		if _, _, isInt := isIntegerType(ret.Results[idx].Type()); !isInt {
